@@ -169,7 +169,16 @@ impl Cipher for RecCipher {
         });
         r
     }
-    // rekey deliberately not overridden
+    /// Forward to the backend's own rekey (a backend may override the trait's default), and follow the key for the
+    /// log with the specification's REKEY computed independently (bytes are compared elsewhere; the log only needs
+    /// a stable identity for the new key).
+    fn rekey(&mut self) {
+        self.inner.rekey();
+        if let Some(alg) = crate::prims::CipherAlg::parse(self.inner.name()) {
+            self.key = crate::prims::rekey(alg, &self.key);
+        }
+        self.log.lock().unwrap().ops.push(Op::CipherSet { ep: self.ep.clone(), cid: self.cid, key: self.key.clone() });
+    }
 }
 
 impl CryptoResolver for RecResolver {
